@@ -4804,6 +4804,15 @@ class PyCdlib:
 
             _check_iso9660_directory(name, self.interchange_level)
 
+            # Detect a bad parent or a duplicate before the new record is
+            # constructed; the constructor already updates the Rock Ridge link
+            # counts of the parent.
+            if not parent.is_dir():
+                raise pycdlibexception.PyCdlibInvalidInput('Trying to add a child to a record that is not a directory')
+            for child in parent.children:
+                if child.file_ident == name:
+                    raise pycdlibexception.PyCdlibInvalidInput('Failed adding duplicate name to parent')
+
             relocated = False
             fake_dir_rec = None
             orig_parent = None
